@@ -1,6 +1,7 @@
 import LassoProofs.C02
 import LassoModel.Wrap
 import LassoModel.Extracted
+import LassoProofs.Lemmas.Config
 /-
   C17 — trait, reference, boxed and collection-trait access equal the inherent methods.
 
@@ -137,5 +138,12 @@ theorem fromIter_is_extend (env : Env) (N : Nat) (xs : List Bytes) :
 the same model function for both; on the real code `Index::index` forwards to `resolve`). -/
 theorem index_is_resolve (env : Env) (r : Rodeo) (k : Nat) (hk : r.strings.length ≤ k) :
     r.resolve env k = .panic := (Rodeo.unknown_key env r k hk).1
+
+/-- The code this file's theorems are about is the same under every feature configuration: the regenerated
+census of conditional compilation contains import blocks, whole serde impls, optional-dependency impls and
+module declarations only, and no gate inside any function body (`Lemmas/Config.lean`). -/
+theorem same_code_under_every_feature_configuration :
+    (Extracted.cfgGates.all fun g => g.kind != .other) = true ∧ Extracted.bodyGates.isEmpty = true :=
+  Lasso.one_code_base_for_all_configurations
 
 end Lasso.C17
